@@ -659,3 +659,122 @@ func useAfterFailedCheck(f *ssa.Function) []nilUse {
 	}
 	return out
 }
+
+// rulesC20deep: the schema getter returns a DEEP copy that shares nothing
+// with machine-owned storage.
+func (c *Ctx) rulesC20deep() {
+	c.rule("C20.deep", "Machine.Schema returns a deep copy: following the result back through shallow copiers (maps.Clone, slices.Clone, append, local variables) never reaches machine-owned storage (a field load, or the target of an atomic pointer field), and the deep clone it derives from is not also cached in a machine field - a shallow copy of a cached clone shares every State's relation slices with all other callers and with the cache")
+	f := c.fnOpt(pm + ":Machine.Schema")
+	if f == nil {
+		c.undecided("C20.deep: Machine.Schema not found")
+		return
+	}
+	isShallow := func(call *ssa.Call) bool {
+		fo := calleeObj(&call.Call)
+		if fo == nil || fo.Pkg() == nil {
+			return false
+		}
+		p := fo.Pkg().Path()
+		return (p == "maps" || p == "slices") && calleeName(&call.Call) == "Clone"
+	}
+	// atomicFieldLoad: *(x.f.Load()) on an atomic.Pointer field
+	atomicFieldLoad := func(v ssa.Value) bool {
+		u, ok := v.(*ssa.UnOp)
+		if !ok || u.Op != token.MUL {
+			return false
+		}
+		call, ok := u.X.(*ssa.Call)
+		if !ok || calleeName(&call.Call) != "Load" || len(call.Call.Args) == 0 {
+			return false
+		}
+		return fieldOf(call.Call.Args[0]) != nil
+	}
+	// cached: the address of the local holding v is handed to x.f.Store(&local), or v is stored into a field
+	cachedIn := func(al *ssa.Alloc) string {
+		if al.Referrers() == nil {
+			return ""
+		}
+		for _, r := range *al.Referrers() {
+			if ci, ok := r.(ssa.CallInstruction); ok {
+				cc := ci.Common()
+				if calleeName(cc) == "Store" && len(cc.Args) == 2 && cc.Args[1] == ssa.Value(al) && fieldOf(cc.Args[0]) != nil {
+					return "cached through " + render(cc.Args[0]) + ".Store"
+				}
+			}
+		}
+		return ""
+	}
+	bad := ""
+	n := 0
+	seen := map[ssa.Value]bool{}
+	var walk func(v ssa.Value, shallow bool)
+	walk = func(v ssa.Value, shallow bool) {
+		if v == nil || seen[v] || bad != "" {
+			return
+		}
+		seen[v] = true
+		switch x := v.(type) {
+		case *ssa.Phi:
+			for _, e := range x.Edges {
+				walk(e, shallow)
+			}
+		case *ssa.ChangeType:
+			walk(x.X, shallow)
+		case *ssa.Call:
+			if isShallow(x) {
+				walk(x.Call.Args[0], true)
+				return
+			}
+			n++
+			// a producer (e.g. Schema.Clone): its result must not also be cached
+			if x.Referrers() != nil {
+				for _, r := range *x.Referrers() {
+					st, ok := r.(*ssa.Store)
+					if !ok || st.Val != ssa.Value(x) {
+						continue
+					}
+					if fieldOf(st.Addr) != nil {
+						bad = "the clone is also stored in " + render(st.Addr)
+					}
+					if al, ok := st.Addr.(*ssa.Alloc); ok {
+						if w := cachedIn(al); w != "" {
+							bad = "the clone is " + w
+						}
+					}
+				}
+			}
+		case *ssa.UnOp:
+			if x.Op != token.MUL {
+				return
+			}
+			if loadOfField(x) != nil {
+				bad = "reaches the machine-owned field " + render(x)
+				return
+			}
+			if atomicFieldLoad(x) {
+				bad = "reaches the cached value behind " + render(x.X)
+				return
+			}
+			if al, ok := x.X.(*ssa.Alloc); ok {
+				if w := cachedIn(al); w != "" && shallow {
+					bad = "a shallow copy of a local that is " + w
+					return
+				}
+				for _, r := range *al.Referrers() {
+					if st, ok := r.(*ssa.Store); ok && st.Addr == ssa.Value(al) {
+						walk(st.Val, shallow)
+					}
+				}
+			}
+		}
+	}
+	for _, r := range returnsOf(f) {
+		for _, v := range retVals(r) {
+			walk(v, false)
+		}
+	}
+	c.check(bad == "", "C20.deep", "Machine.Schema returns a deep copy sharing nothing with the machine", f.Pos(), bad)
+	if n < 1 && bad == "" {
+		c.undecided("C20.deep: no producer call found behind Machine.Schema's result")
+	}
+}
